@@ -1,6 +1,7 @@
 import XixiKV.Proofs.Frame
 import XixiKV.Proofs.Chunk
 import XixiKV.Proofs.Record
+import XixiKV.Proofs.Fio
 /-!
 # C11 — block/chunk framing round-trips every record at every offset
 
@@ -102,6 +103,35 @@ theorem C11_codec_hint (key : ByteArray) (p : Pos) (h1 : p.fid < 2 ^ 32) (h2 : p
 theorem C11_codec_varint (n : Nat) (rest : List UInt8) (h : n < 2 ^ 64) :
     Varint.uvarint (Varint.putUvarint n ++ rest) = some (n, (Varint.putUvarint n).length) :=
   Varint.uvarint_putUvarint n rest h
+
+/-! ## "both I/O back-ends store identical bytes", at the level of `fio.ReadWriter`
+
+`Model/Fio.lean` models the OS file under the two back-ends (`FileIO`: `O_APPEND` writes, `ReadAt`;
+`MMap`: a block-granular mapping over a file that is physically extended with zeros, logical size
+`virtualSize`).  The engine model above works on the logical bytes only; these theorems are what
+justifies that for the mmap back-end. -/
+
+/-- For every initial file and every sequence of `Write/Read/Sync/Size/Truncate(n ≤ size)/
+    ResetFileSize` calls: both back-ends deliver the same bytes, sizes and write counts call by call,
+    while open the first `virtualSize` bytes of the mmap file are the `FileIO` file and the rest is
+    zeros, and after `Close` the two files are byte-identical with physical = logical size. -/
+theorem C11_backends_identical (B : Nat) (hB : 0 < B) (file : Fio.OsFile) (ops : List Fio.Op)
+    (hok : Fio.OpsOk (Fio.FileIO.open file) ops) :
+    (let f := Fio.runWith Fio.FileIO.apply (Fio.FileIO.open file) ops
+     let m := Fio.runWith (Fio.MMap.apply B) (Fio.MMap.open B file) ops
+     m.2.map Fio.Res.obs = f.2.map Fio.Res.obs ∧
+     m.1.os.bytes.extract 0 m.1.virt = f.1.os.bytes ∧
+     m.1.os.bytes.extract m.1.virt m.1.os.bytes.size = zeros (m.1.os.bytes.size - m.1.virt)) ∧
+    (Fio.MMap.run B file ops).2.map Fio.Res.obs = (Fio.FileIO.run file ops).2.map Fio.Res.obs ∧
+    (Fio.MMap.run B file ops).1.os.bytes = (Fio.FileIO.run file ops).1.os.bytes ∧
+    (Fio.MMap.run B file ops).1.os.bytes.size = (Fio.MMap.run B file ops).1.virt :=
+  Fio.Fio_backends_agree B hB file ops hok
+
+/-- no call sequence on an `MMap` handle touches memory outside the mapping or beyond the physical
+    end of the file (slice-bounds panic / SIGBUS / lost store) -/
+theorem C11_mmap_never_faults (B : Nat) (hB : 0 < B) (f : Fio.OsFile) (ops : List Fio.Op) :
+    Fio.Res.fault ∉ (Fio.MMap.run B f ops).2 :=
+  Fio.Fio_no_fault B hB f ops
 
 /-- non-vacuity: a 40 000-byte payload appended to a file that ends 3 bytes before a block boundary -/
 example : ∃ f d : ByteArray, 0 < d.size ∧ f.size % BS = 32765 ∧ d.size = 40000 :=
